@@ -2,6 +2,7 @@
 import json, os, sys, time, hashlib, subprocess
 
 VERIF = os.path.dirname(os.path.dirname(os.path.abspath(__file__)))
+OUT = os.environ.get('PYVC_OUT_DIR', VERIF)        # evidence/ and replay/ go here (scratch runs against mutated copies set it)
 NATIVE_PY = os.environ.get('PYVC_NATIVE_PY', '/venv/bin/python')
 REPO = os.environ.get('PYVC_REPO', '/repo')
 
@@ -59,10 +60,10 @@ class Report:
             self.suppressed = getattr(self, 'suppressed', 0) + 1
             self.notes.append('refuted as well (no separate replay): %s' % obligation) if len(self.notes) < 40 else None
             return None
-        os.makedirs(os.path.join(VERIF, 'replay'), exist_ok=True)
+        os.makedirs(os.path.join(OUT, 'replay'), exist_ok=True)
         h = hashlib.sha256((obligation + json.dumps(case, sort_keys=True, default=str)).encode()).hexdigest()[:10]
         safe = ''.join(c if c.isalnum() or c in '-_.' else '_' for c in obligation)[:80]
-        path = os.path.join(VERIF, 'replay', '%s-%s-%s.json' % (self.prop, safe, h))
+        path = os.path.join(OUT, 'replay', '%s-%s-%s.json' % (self.prop, safe, h))
         doc = dict(property=self.prop, obligation=obligation, function=function, detail=detail, case=case,
                    solver_output=(str(solver_output)[:4000] if solver_output is not None else None), reproduced=reproduced, native=native_msg,
                    source_sha=self.functions.get(function))
@@ -105,8 +106,8 @@ class Report:
         ev = dict(property_id=self.prop, tier=self.tier, seed=int(self.seed), level=self.level, coverage=coverage,
                   assumptions=[('%s: %s' % (k, ASSUMPTIONS[k]) if k in ASSUMPTIONS else k) for k in (self.assumptions + self.trusted)],
                   wall_s=round(time.time() - self.t0, 2), violations=len(self.violations) + getattr(self, 'suppressed', 0))
-        os.makedirs(os.path.join(VERIF, 'evidence'), exist_ok=True)
-        json.dump(ev, open(os.path.join(VERIF, 'evidence', '%s.json' % self.prop), 'w'), indent=1, default=str)
+        os.makedirs(os.path.join(OUT, 'evidence'), exist_ok=True)
+        json.dump(ev, open(os.path.join(OUT, 'evidence', '%s.json' % self.prop), 'w'), indent=1, default=str)
         for kf, ob in self.known_hit:
             print('KNOWN-FINDING: property=%s %s' % (self.prop, kf.get('input') or kf.get('what_failed') or ob))
         for v in self.violations:
